@@ -206,9 +206,15 @@ func c05Compare(c *vlib.Ctx, first gopacket.LayerType, b []byte, set *c05Set, ki
 	if _, unsupported := perr.(gopacket.UnsupportedLayerType); perr != nil && !unsupported {
 		nt := first
 		if n > 0 {
-			if d := set.objs[dec[n-1]]; d != nil {
+			// asked of the packet's own (separate) layer object: the parser's object of that type may be the overwritten one
+			if d, ok := L[n-1].(gopacket.DecodingLayer); ok {
+				vlib.Guard(func() { nt = d.NextLayerType() })
+			} else if d := set.objs[dec[n-1]]; d != nil {
 				nt = d.NextLayerType()
 			}
+		}
+		if n < len(L) && !isErrLayer(L[n]) {
+			nt = L[n].LayerType() // the half-decoded layer that the packet keeps names the decoder that failed
 		}
 		for _, d := range set.objs {
 			if d.CanDecode().Contains(nt) {
